@@ -317,6 +317,13 @@ func genConcPlan(prop string, seed uint64, tier string) *Plan {
 					op.V.Len = 8
 				}
 				op.Flag = uint32(r.Pick(0, 0, 0x10, 7))
+				if prop != "C13" && r.Bool(1, 16) {
+					// a value whose 16-bit value hash is 0: the hash a tombstone carries
+					op.V.Class = VZeroHash
+					if op.V.Len > 400 {
+						op.V.Len = 400
+					}
+				}
 			case 1:
 				op.Kind = "del"
 			case 2:
